@@ -183,6 +183,7 @@ pub fn describe(c: &DCfg) -> J {
         ("on_unsubscribe_panics_inside_unsubscribe_then_stop", c.poison.map(|ch| J::s(if ch { "with a parked channeled subscriber holding a backlog" } else { "direct subscribers only" })).unwrap_or(J::Null)),
         ("selector_subscriber_notified_by_threads_in_lock_step", c.sel_race.map(|n| J::U(n as u64)).unwrap_or(J::Null)),
         ("empty_iterator_dropped_while_subscriber_list_is_busy", J::B(c.quiet_drop)),
+        ("that_drop_happens_by_a_panic_unwinding_the_owner", J::B(c.quiet_drop)),
         ("burst_unsubscribe", c.burst.map(|(k, r)| J::s(format!("{} rounds: {} short-lived subscribers + one that stays, the {} unsubscribed by {} threads released together", r, k, k, k))).unwrap_or(J::Null)),
     ])
 }
@@ -364,10 +365,16 @@ fn execute_quiet_drop(c: &DCfg, seed: u64) -> W {
                 w.mark(MARK_GIVEUP, 8);
                 w.ctx.gates[2].wait();
             }
+            // every other time the iterator is dropped by a panic unwinding through its owner's frame
+            let by_panic = seed % 2 == 1;
             let t2 = std::thread::Builder::new().name("dropper".into()).spawn_scoped(s2, move || {
                 // (r = 0: nothing was ever queued for this iterator and no action is in flight - not the
                 // early drop of the known finding)
                 w.ctx.ev(K::ItDropInv, 0, 0, aid, 0, 0, 0);
+                if by_panic {
+                    let _owned = a_it;
+                    std::panic::panic_any(PANIC_MARK);
+                }
                 drop(a_it);
                 w.ctx.ev(K::ItDropRet, 0, 0, aid, 0, 0, 0);
             }).unwrap();
@@ -377,7 +384,10 @@ fn execute_quiet_drop(c: &DCfg, seed: u64) -> W {
             }
             w.ctx.gates[1].open();
             qkeep = Some(t1.join().unwrap());
-            t2.join().unwrap();
+            if t2.join().is_err() {
+                // the owner thread panicked: the drop happened while it was unwinding and is over now
+                w.ctx.ev(K::ItDropRet, 0, 0, aid, 0, 0, 0);
+            }
         });
         for k in 0..(2 + (seed % 3) as u32) {
             w.dispatch(0, EP_INHERENT, Act { id: act_id(0, 1, k + 1), script: 0 });
